@@ -143,7 +143,7 @@ pub fn c18(a: &Args) {
     let reloads = if a.thorough() { 20 } else { 8 };
     let mut r2 = rng.fork();
     let mut cli_models: Vec<GenFile> = Vec::new();
-    for_each_model(&cfg, &mut rng, |file, tt| {
+    let mut handle = |file: &GenFile, tt: &TT| {
         let Ok(mut first) = load(file) else { return };
         let smoothed = file.fmt == Fmt::D4 && first.nodes.len() > file.lines.len();
         out.count(if smoothed { "d4_smoothed" } else { "other" }, 1);
@@ -167,7 +167,31 @@ pub fn c18(a: &Args) {
         }
         if smoothed && cli_models.len() < if a.thorough() { 30 } else { 6 } { cli_models.push(file.clone()); }
         if r2.chance(0.02) { out.sample(format!("{} n={} urs a {:?} n {} s {} -> {:?} on {} loads", file.origin, file.n, al, k, seed, s0, reloads)); }
-    });
+    };
+    for_each_model(&cfg, &mut rng, &mut handle);
+    // features that are only mentioned next to a False node (several at once): they come back as free
+    // features under the root, in an order that must not depend on hash iteration
+    {
+        let mut r3 = Rng::new(a.seed ^ 0x51ed);
+        for _ in 0..(if a.thorough() { 80 } else { 24 }) {
+            let n = 4 + r3.below(6) as u32;
+            let mut others: Vec<u32> = (2..=n).collect();
+            r3.shuffle(&mut others);
+            let k = 2 + r3.below((others.len() - 1).min(4));
+            let vanish: Vec<i32> = others[..k].iter().map(|&v| if r3.chance(0.5) { v as i32 } else { -(v as i32) }).collect();
+            let mut live: Vec<i32> = Vec::new();
+            for &v in &others[k..] { if r3.chance(0.5) { live.push(if r3.chance(0.5) { v as i32 } else { -(v as i32) }); } }
+            let fmt_l = |l: &[i32]| l.iter().map(|x| x.to_string()).collect::<Vec<_>>().join(" ");
+            let mut lines: Vec<String> = vec!["o 1 0".into(), "t 2 0".into(), "o 3 0".into(), "f 4 0".into()];
+            lines.push(format!("1 2 1 {} 0", fmt_l(&live)).replace("  ", " "));
+            lines.push(format!("3 4 {} 0", fmt_l(&vanish)));
+            if r3.chance(0.6) { lines.push(format!("3 4 {} 0", -vanish[0])); }
+            lines.push("1 3 -1 0".into());
+            let f = GenFile { fmt: Fmt::D4, lines, n, origin: "features vanishing with a false node".into() };
+            let tt = f.tt();
+            if tt.count() > 0 { handle(&f, &tt); }
+        }
+    }
     // the witness of D5: or-node whose second branch misses four variables
     {
         let f = GenFile { fmt: Fmt::D4, lines: vec!["o 1 0".into(), "t 2 0".into(), "1 2 1 2 3 4 5 0".into(), "1 2 -1 0".into()], n: 5, origin: "D5 witness".into() };
